@@ -39,6 +39,15 @@ type Machine struct {
 	// ReplayLastLevel re-derives every state of the last completed level by
 	// replaying its whole path from its initial state and compares.
 	ReplayLastLevel bool
+	// Verified reports whether operation i of a state is one that is checked against the model
+	// (as opposed to a driver). Used by the leaf sweep and the second pass.
+	Verified func(state []string, i int) bool
+	// LeafSweepMaxSize > 0: the states of the last level with at most this many elements also get
+	// their verified operations executed (no successors are added).
+	LeafSweepMaxSize int
+	// Rejudge is the number of earliest states whose verified operations are executed once more at
+	// the end (state carried between calls of the library shows up there).
+	Rejudge int
 }
 
 type stateKey [2]uint64
@@ -101,9 +110,13 @@ func RunBFS(m *Machine, deadline time.Time, st *Stats) {
 	depth := 0
 	capped := false
 	var lastLevel []item
+	var earliest []item
 	for len(frontier) > 0 && depth < m.MaxDepth {
 		var next []item
 		for _, it := range frontier {
+			if len(earliest) < m.Rejudge {
+				earliest = append(earliest, it)
+			}
 			if m.Invariant != nil {
 				for _, v := range m.Invariant(it.s) {
 					addViolation(st, v, pathOf(it.k))
@@ -174,6 +187,47 @@ func RunBFS(m *Machine, deadline time.Time, st *Stats) {
 			for _, v := range m.Invariant(it.s) {
 				addViolation(st, v, pathOf(it.k))
 			}
+		}
+	}
+	judgeOnly := func(it item, counter string) {
+		n := m.NumOps(it.s)
+		for i := 0; i < n; i++ {
+			if m.Verified != nil && !m.Verified(it.s, i) {
+				continue
+			}
+			r := m.Step(it.s, i)
+			if r.Skip != "" {
+				continue
+			}
+			st.Counters[counter]++
+			st.Transitions++
+			if r.Validated {
+				st.Validated++
+			}
+			for _, v := range r.Violations {
+				tr := pathOf(it.k)
+				tr.Ops = append(tr.Ops, i)
+				if v.Detail == nil {
+					v.Detail = map[string]any{}
+				}
+				v.Detail["found_in"] = counter
+				addViolation(st, v, tr)
+			}
+		}
+	}
+	if m.LeafSweepMaxSize > 0 && !capped {
+		for _, it := range frontier {
+			if len(it.s) <= m.LeafSweepMaxSize {
+				if !deadline.IsZero() && time.Now().After(deadline) {
+					break
+				}
+				judgeOnly(it, "leaf_sweep_transitions")
+			}
+		}
+	}
+	if m.Rejudge > 0 && !capped {
+		for _, it := range earliest {
+			judgeOnly(it, "rejudged_after_history")
 		}
 	}
 	if m.ReplayLastLevel {
